@@ -154,6 +154,11 @@ def floor(tier):
     out.append({"kind": "collinear", "pts": [[0, 0, 0], [2, 0, 0], [1, 0, 0], [3, 0, 0],
                                              [5, 0, 0], [5, 1, 0]]})
     out.append({"kind": "collinear", "pts": [[1, 2, 3], [4, 5, 6]]})
+    out.append({"kind": "collinear", "pts": [[0, 0, 0], [1, 0, 0], [400, 1, 0]]})
+    out.append({"kind": "collinear", "pts": [[1000000, 1000000, 0], [1000100, 1000100, 0],
+                                             [1000200, 1000203, 0]]})
+    out.append({"kind": "collinear", "pts": [[0, 0, 0], [100000, 200000, 300000],
+                                             [300000, 600000, 900000], [-100000, -200000, -300000]]})
     # half spaces: unit-ish box, outward normals
     box_n = [[1, 0, 0], [-1, 0, 0], [0, 1, 0], [0, -1, 0], [0, 0, 1], [0, 0, -1]]
     box_x = [[2, 0, 0], [0, 0, 0], [0, 2, 0], [0, 0, 0], [0, 0, 2], [0, 0, 0]]
@@ -328,9 +333,21 @@ def generate(rng, tier, i):
                     j = {"last_off": n - 1, "first_off": 0,
                          "one_off": int(rng.integers(0, n))}[mode]
                     pts[j] += w
+            if rng.random() < 0.3:
+                # long, thin configurations (diameter >> deviation) and uniformly scaled
+                # ones: the decision "deviation / diameter" is 0 or clearly above the
+                # tolerance, whatever the size of the coordinates
+                if mode != "random" and rng.random() < 0.6:
+                    pts = np.asarray(pts) + (k[:, None] * d) * int(rng.integers(20, 400))
+                else:
+                    pts = np.asarray(pts) * int(rng.choice([10, 1000, 100000]))
             pl = [tuple(int(x) for x in p) for p in pts]
             if len(set(pl)) == n:
-                break
+                P = np.array(pl, dtype=float)
+                diam = max(1.0, max(np.linalg.norm(a - b) for a in P for b in P))
+                dev = max(np.linalg.norm(np.cross(q - P[0], P[1] - P[0])) for q in P) / diam
+                if dev == 0 or dev >= 1e-3:          # exact zero or far above tol = 1e-5
+                    break
         return {"kind": kind, "pts": [list(p) for p in pl]}
     if kind == "halfspace":
         bounded = bool(rng.random() < 0.5)
